@@ -61,7 +61,7 @@ func (c07) Budget(tier string) runner.Budget {
 	if tier == "thorough" {
 		return runner.Budget{Plans: 40000, PlansPerProc: 40, Wall: 14 * time.Minute}
 	}
-	return runner.Budget{Plans: 1600, PlansPerProc: 25, Wall: 100 * time.Second}
+	return runner.Budget{Plans: 9600, PlansPerProc: 60, Wall: 45 * time.Second}
 }
 
 func (c07) Describe() runner.Description {
